@@ -265,10 +265,23 @@ func init() {
 			}},
 			{Name: "object-functions-on-arrays", Quick: []int{1}, ShardDepth: 3, Run: func(c *explore.Chooser, x *explore.Ctx, _ int) {
 				o1, o2 := c14Object(c), c14Object(c)
-				fn := c.Choose(4)
+				fn := c.Choose(5)
+				key := "a"
+				if fn == 4 {
+					key = []string{"a", "b", "c"}[c.Choose(3)]
+				}
 				c.Done()
 				doc := map[string]interface{}{"a": []interface{}{o1, o2}}
 				switch fn {
+				case 4: // $lookup over an array of objects equals the field selection, whenever some object has the member
+					sel := rpath(rname("a"), rname(key))
+					want, werr := ref.Eval(sel, doc, ref.NewEnv(doc))
+					if werr != nil || ref.IsUndef(want) {
+						c14Unordered(x, `$lookup(a, "`+key+`")`, doc, ref.U, false)
+						return
+					}
+					c14Unordered(x, `$lookup(a, "`+key+`")`, doc, want, false)
+					c14Unordered(x, `$lookup(a, "`+key+`") = a.`+key, doc, true, false)
 				case 0: // later objects take precedence
 					m := map[string]interface{}{}
 					for k, v := range o1 {
